@@ -154,9 +154,33 @@ fn cmd_sqlcols(req: &Value) -> Value {
     }
 }
 
+// `c05_hooks {src, target, prefixes: [..]}`: main's `log` with msg_prefix "verif:", keeping only the messages whose text
+// starts with one of the given prefixes (one compile serves several hook streams without shipping every hook line to python)
+fn cmd_hooks(req: &Value) -> Value {
+    let mut r2 = req.clone();
+    r2["msg_prefix"] = json!("verif:");
+    r2["want"] = json!([]);
+    let mut out = crate::cmd_log(&r2);
+    let prefixes: Vec<String> = req
+        .get("prefixes")
+        .and_then(|p| p.as_array())
+        .map(|a| a.iter().filter_map(|x| x.as_str().map(String::from)).collect())
+        .unwrap_or_default();
+    if let Some(entries) = out.get_mut("entries").and_then(|e| e.as_array_mut()) {
+        entries.retain(|e| {
+            e.get("Message")
+                .and_then(|m| m.as_str())
+                .map(|m| prefixes.iter().any(|p| m.starts_with(p.as_str())))
+                .unwrap_or(false)
+        });
+    }
+    out
+}
+
 pub fn dispatch(cmd: &str, req: &Value) -> Option<Value> {
     match cmd {
         "sqlcols" => Some(cmd_sqlcols(req)),
+        "c05_hooks" => Some(cmd_hooks(req)),
         _ => None,
     }
 }
